@@ -62,7 +62,14 @@ func (g *collection) Empty() bool {
 }
 
 func (g *collection) Valid() bool {
-	return g.Rect().Valid()
+	// the rectangle does not cover every position (polygon holes, empty
+	// children), so ask the children
+	for _, child := range g.children {
+		if !child.Valid() {
+			return false
+		}
+	}
+	return true
 }
 
 func (g *collection) Rect() geometry.Rect {
